@@ -409,9 +409,134 @@ def check_hash_object(rep, prog, rid, construct, text, S, where, scenario=None):
     return ok
 
 
+class _Raise(Exception):
+    pass
+
+
+def eval_lookup_method(fn_node, self_name, self_key, depth=0):
+    """Value a small *lookup method* returns for one receiver, by the checker's own evaluation of its body (nothing of the repository
+    runs): local names bound to literals, `if <receiver> in T / is M / == M`, `T[<receiver>]`, `T.get(<receiver>[, d])`, try/except
+    around the lookup, return / raise.  The receiver is the enum member `self_key` (dotted text, e.g. SymmetricKeyAlgorithm.AES128).
+    -> ('return', int | dotted text | None) or ('raise', None).  Anything else in the body is an AnalysisError (unmodelled shape) -
+    a dict literal, an if-chain, a hoisted constant or a conditional expression give the same answer."""
+    env = {}
+
+    def key(n):
+        if isinstance(n, ast.Name) and n.id == self_name:
+            return self_key
+        if isinstance(n, ast.Name) and n.id in env:
+            return key(env[n.id])
+        if isinstance(n, ast.Constant):
+            return n.value
+        d = dotted(n)
+        if d is not None:
+            return d
+        raise AnalysisError('lookup method: cannot read %s' % ast.unparse(n)[:80])
+
+    def container(n):
+        if isinstance(n, ast.Name) and n.id in env:
+            return container(env[n.id])
+        if isinstance(n, ast.Call) and dotted(n.func) in ('frozenset', 'set', 'tuple', 'list', 'dict') and len(n.args) == 1 and not n.keywords:
+            return container(n.args[0])
+        if isinstance(n, ast.Dict):
+            return [(key(k), v) for k, v in zip(n.keys, n.values)]
+        if isinstance(n, (ast.Set, ast.Tuple, ast.List)):
+            return [(key(e), None) for e in n.elts]
+        raise AnalysisError('lookup method: %s is not a literal table' % ast.unparse(n)[:80])
+
+    def truth(t):
+        if isinstance(t, ast.BoolOp):
+            vals = [truth(v) for v in t.values]
+            return all(vals) if isinstance(t.op, ast.And) else any(vals)
+        if isinstance(t, ast.UnaryOp) and isinstance(t.op, ast.Not):
+            return not truth(t.operand)
+        if isinstance(t, ast.Compare) and len(t.ops) == 1:
+            op, l, r = t.ops[0], t.left, t.comparators[0]
+            if isinstance(op, (ast.In, ast.NotIn)):
+                res = any(k == key(l) for k, _ in container(r))
+                return res if isinstance(op, ast.In) else not res
+            if isinstance(op, (ast.Is, ast.Eq, ast.IsNot, ast.NotEq)):
+                res = value(l) == value(r)
+                return res if isinstance(op, (ast.Is, ast.Eq)) else not res
+        raise AnalysisError('lookup method: cannot decide %s' % ast.unparse(t)[:80])
+
+    def value(n):
+        if isinstance(n, ast.IfExp):
+            return value(n.body) if truth(n.test) else value(n.orelse)
+        if isinstance(n, ast.Subscript):
+            k = key(n.slice)
+            for kk, v in container(n.value):
+                if kk == k and v is not None:
+                    return value(v)
+            raise _Raise()
+        if isinstance(n, ast.Call) and isinstance(n.func, ast.Attribute) and n.func.attr == 'get' and 1 <= len(n.args) <= 2 and not n.keywords:
+            k = key(n.args[0])
+            for kk, v in container(n.func.value):
+                if kk == k and v is not None:
+                    return value(v)
+            return value(n.args[1]) if len(n.args) == 2 else None
+        if isinstance(n, ast.Name) and n.id == self_name:
+            return self_key
+        if isinstance(n, ast.Name) and n.id in env:
+            return value(env[n.id])
+        if isinstance(n, ast.Constant):
+            return n.value
+        if isinstance(n, ast.BinOp):
+            from .s2kshape import fold, _NoFold
+            try:
+                return fold(n, {})
+            except _NoFold:
+                pass
+        d = dotted(n)
+        if d is not None:
+            return d
+        return ast.unparse(n)
+
+    def block(stmts):
+        for st in stmts:
+            if isinstance(st, ast.Expr) and isinstance(st.value, ast.Constant):
+                continue
+            if isinstance(st, ast.Pass):
+                continue
+            if isinstance(st, ast.Assign) and len(st.targets) == 1 and isinstance(st.targets[0], ast.Name):
+                env[st.targets[0].id] = st.value
+                continue
+            if isinstance(st, ast.If):
+                r = block(st.body if truth(st.test) else st.orelse)
+                if r is not None:
+                    return r
+                continue
+            if isinstance(st, ast.Return):
+                return ('return', value(st.value) if st.value is not None else None)
+            if isinstance(st, ast.Raise):
+                raise _Raise()
+            if isinstance(st, ast.Try) and not st.finalbody:
+                try:
+                    r = block(st.body)
+                    if r is None:
+                        r = block(st.orelse)
+                except _Raise:
+                    r = None
+                    for h in st.handlers:
+                        r = block(h.body)
+                        break
+                if r is not None:
+                    return r
+                continue
+            raise AnalysisError('lookup method: unmodelled statement %s' % ast.unparse(st)[:80])
+        return None
+
+    try:
+        r = block(fn_node.body)
+    except _Raise:
+        return ('raise', None)
+    return r if r is not None else ('return', None)
+
+
 def check_cipher_tables(rep, prog, rid):
-    """Symmetric cipher ids and key sizes against the RFC 4880 9.2 / RFC 5581 table (independent oracle)."""
-    from . import tables
+    """Symmetric cipher ids, key sizes and cipher classes against the RFC 4880 9.2 / RFC 5581 table (independent oracle).  The two
+    lookup properties are evaluated per enum member (eval_lookup_method), so the table may be a local dict, a hoisted constant, an
+    if-chain ... - only what each member maps to counts."""
     ci = prog.cls('pgpy.constants', 'SymmetricKeyAlgorithm')
     mem = ci.enum_members()
     want_ids = {'Plaintext': 0, 'IDEA': 1, 'TripleDES': 2, 'CAST5': 3, 'Blowfish': 4, 'AES128': 7, 'AES192': 8, 'AES256': 9,
@@ -419,20 +544,29 @@ def check_cipher_tables(rep, prog, rid):
     bad = {k: (mem.get(k), v) for k, v in want_ids.items() if mem.get(k) != v}
     rep.check(not bad, rid, 'SymmetricKeyAlgorithm', 'ids %s' % bad, 'cipher ids must be the RFC 4880 9.2 / RFC 5581 values', where=ci.where,
               found=bad)
-    ks = tables.table(ci.methods['key_size'].node)
+
+    def per_member(meth):
+        f = ci.methods.get(meth)
+        if f is None:
+            raise AnalysisError('SymmetricKeyAlgorithm.%s vanished' % meth)
+        out = {}
+        for m in mem:
+            kind, v = eval_lookup_method(f.node, f.params[0], '%s.%s' % (ci.name, m))
+            if kind == 'return' and v is not None:
+                out[m] = v
+        return f, out
     want_ks = {'IDEA': 128, 'TripleDES': 192, 'CAST5': 128, 'Blowfish': 128, 'AES128': 128, 'AES192': 192, 'AES256': 256,
                'Twofish256': 256, 'Camellia128': 128, 'Camellia192': 192, 'Camellia256': 256}
-    got = {k.split('.')[-1]: int(v) for k, v in ks.items()}
+    f, got = per_member('key_size')
     rep.check(got == want_ks, rid, 'SymmetricKeyAlgorithm.key_size', 'key sizes %s' % {k: v for k, v in got.items() if want_ks.get(k) != v},
               'cipher key sizes must be the RFC values (a generated session key has this many bits)',
-              where=ci.methods['key_size'].where, expected=want_ks, found=got)
+              where=f.where, expected=want_ks, found=got)
     # the cipher class each id is bound to
-    cf = ci.methods.get('cipher')
-    ct = tables.table(cf.node)
     want_c = {'IDEA': 'algorithms.IDEA', 'TripleDES': 'algorithms.TripleDES', 'CAST5': 'algorithms.CAST5', 'Blowfish': 'algorithms.Blowfish',
               'AES128': 'algorithms.AES', 'AES192': 'algorithms.AES', 'AES256': 'algorithms.AES', 'Camellia128': 'algorithms.Camellia',
               'Camellia192': 'algorithms.Camellia', 'Camellia256': 'algorithms.Camellia'}
-    gotc = {k.split('.')[-1]: v for k, v in ct.items() if k.split('.')[-1] in want_c}
+    cf, gotc = per_member('cipher')
+    gotc = {k: v for k, v in gotc.items() if k in want_c}
     rep.check(gotc == want_c, rid, 'SymmetricKeyAlgorithm.cipher', 'cipher classes', 'each cipher id must be bound to its own block cipher',
               where=cf.where, expected=want_c, found=gotc)
 
